@@ -6,6 +6,7 @@ import json, glob, os, sys
 rnd, out = int(sys.argv[1]), sys.argv[2]
 V = os.path.dirname(os.path.dirname(os.path.abspath(__file__)))
 FOCUS = {
+ 8: "This round, each of your three seeds must come from a DIFFERENT one of these motives, and read like a commit a maintainer would really write for it: (1) performance - a fast path, word-at-a-time or batch processing, pre-sizing, pooling or reuse of buffers, an early exit, a hoisted computation, loop unrolling; (2) hardening - input validation, a new error return or panic for 'impossible' input, a clamp, a debug-mode contract (openacid/must, -tags debug), defensive copies; (3) portability and types - int/int32/int64/uint changes, 32-bit builds (GOARCH=386), endianness, narrower or wider fields, typed constants; (4) observability and state - counters, statistics, logging hooks, a cache or memo, lazily built tables, sync primitives; (5) API and structure - helper extraction shared by two callers with slightly different needs, a new option or default, a constructor change, de-duplication of two near-identical code paths that are not quite identical. The defect must be a by-product of the change (a boundary the new path gets wrong, a case the shared helper serves for one caller only, a state that outlives the call), needing something specific to manifest: a particular input class, call sequence, interleaving, build configuration or I/O fault point.",
  7: "This round, make the edits as SMALL as you can: ideally one or two changed tokens or lines per seed (a comparison operator, a constant, an operand, a swapped argument, an index expression, a loop bound, an initial value, a condition's polarity, a type of one variable), in the functions the property names or in the helpers, tables and constants they use - edits that survive the existing tests yet give a WRONG RESULT or a PANIC for some valid input (inside the property's stated domain; not only for negative positions, garbage indexes or sizes of 2^31 and more). Before you settle on a seed, check with a brute-force reference that it really changes behaviour inside the domain - many one-token edits in this library are equivalent (`|` vs `^` on disjoint bits, a shortcut threshold, a capacity) and those are worthless. At most one of the three may be larger (a few lines), for instance two cooperating one-token edits in two functions.",
  6: "This round, aim at the ARITHMETIC CORE and at COOPERATING SITES. (a) Slips that keep the shape of the code - the same loops, branches, calls and types - but compute a wrong number for one class of inputs: a wrong constant inside a closed-form expression, a shift/popcount/mask trick that is off for one bit pattern, a carry or correction term dropped between two stages, a table entry or a table-building formula that is wrong for one index, an accumulator initialised or advanced slightly wrongly, `<` vs `<=` where only the boundary value differs. (b) Two or three edits in DIFFERENT functions or files (writer and reader, builder and query, helper and caller, constant and its user) that agree with each other in the common case and disagree for one boundary case. (c) State or configuration dependence: a result that depends on an earlier call, on the build tag, on the word size, on the order of two calls.",
  5: "This round, look especially at what the property's functions DEPEND ON rather than at their main loop: helper functions, package tables and the code that initialises them, constants, type definitions, constructor defaults, the less-travelled branches (error paths, empty/one-element inputs, the last iteration, equal keys, maximum height/width), and pairs of edits in two different places that are each harmless alone.",
